@@ -270,7 +270,4 @@ example (s : SchemaD) (fx : Fixes) (d : Doc) (r : Rule) (hr : r ∈ Proved) :
     Silent s fx r ((Tr.mk List.reverse id id (fun l => l.reverse_perm) (fun _ => List.Perm.refl _)).doc d) ↔
       Silent s fx r d := perm_selections_partial List.reverse (fun l => l.reverse_perm) s fx d r hr
 
-/-- every rule of the chain is either proved or listed in `Spec.Unproved` -/
-theorem proved_or_listed : ∀ r ∈ Rule.all, r ∈ Proved ∨ r.name ∈ Spec.Unproved := by decide
-
 end PyGql.Props.C06
